@@ -74,7 +74,7 @@ def baseline(wt):
     stable = set(json.load(open("/root/.vp/BASELINE.json"))["stable_pass"])
     junit = os.path.join(wt, ".junit.xml")
     env = dict(os.environ, PYTHONPATH=wt)
-    sh(f"cd {wt} && /venv/bin/python -m pytest -q -p no:cacheprovider --timeout=900 --continue-on-collection-errors --junitxml={junit} -x -q 2>&1 | tail -3", env=env)
+    sh(f"cd {wt} && /venv/bin/python -m pytest -q -p no:cacheprovider --timeout=900 --continue-on-collection-errors --junitxml={junit} 2>&1 | tail -3", env=env)
     if not os.path.exists(junit):
         return None, ["no junit"]
     passed = set()
